@@ -37,6 +37,13 @@ theorem ASim.attachRow (ok : P.Ok) {s₁ s₂ : St} (h : ASim P s₁ s₂) {g : 
       intro hhb hgb
       obtain ⟨c, cs, e⟩ := h.bne hhb
       rw [← hgb, hg] at e; cases e)
+    (by
+      refine ⟨?_, by intro x hx; simp [grefs] at hx⟩
+      intro i hi
+      simp only [gnodes, List.mem_append, List.mem_singleton] at hi
+      rcases hi with hi | hi
+      · have := (h.wf g _ hg).1 i hi; simp; omega
+      · simp [hi])
   have e : mapGrpAt P g (.row (nodes ++ [s₁.nodes.size]) t) = .row (nodes.map P.ν ++ [s₂.nodes.size]) t := by
     simp [mapGrpAt, mapGrp, h0]
   rw [e] at a2
@@ -63,6 +70,11 @@ theorem ASim.attachNoop (ok : P.Ok) {s₁ s₂ : St} (h : ASim P s₁ s₂) {g :
       intro hhb hgb
       obtain ⟨c, cs, e⟩ := h.bne hhb
       rw [← hgb, hg] at e; cases e)
+    (by
+      refine ⟨?_, fun x hx => (h.wf g _ hg).2 x (by simpa [grefs] using hx)⟩
+      intro i hi
+      simp only [gnodes, List.mem_singleton] at hi
+      simp [hi])
   have e : mapGrpAt P g (.noop ps (some s₁.nodes.size)) =
       .noop (ps.map fun p => (P.γ p.1, p.2)) (some s₂.nodes.size) := by
     simp [mapGrpAt, mapGrp, h0]
@@ -230,7 +242,7 @@ theorem addExit_rel (ok : P.Ok) : ∀ (f₁ f₂ j : Nat) (d : Dest) (c : Cond) 
         simp only [mapGrpAt_row]
         exact rowAddExit_rel ok h hd nodes t hg d c
       | block cs =>
-        have hne : j ≠ P.bx := fun e => ht (e ▸ ok.hT)
+        have hne := ok.ne_bx ht
         simp only [mapGrpAt_block_ne P hne]
         by_cases hb : c.blank = true
         · simp only [hb, if_true]
@@ -327,7 +339,7 @@ theorem entryNode_rel (ok : P.Ok) {s₁ s₂ : St} (h : ASim P s₁ s₂) : ∀ 
           exact ⟨⟨rfl, hcl.1 i (List.mem_of_mem_head? hh)⟩, rfl, rfl⟩
       | noop ps router => exact rwp_fail_left _ _ _ _ _
       | block cs =>
-        have hne : j ≠ P.bx := fun e => ht (e ▸ ok.hT)
+        have hne := ok.ne_bx ht
         simp only [mapGrpAt_block_ne P hne, head?_map']
         cases hh : cs.head? with
         | none => exact rwp_fail_left _ _ _ _ _
